@@ -58,7 +58,6 @@ def run(ctx):
     ctx.assumptions += [
         "probe rounds are driven one by one (Slice.TryRecover per replica round, one iteration of the real "
         "checkBackendMasterStatus goroutine per master round through the ticker hook); the 4 s period is not modelled",
-        "a round in which the master is down is judged by C27 only for the recovery condition (C28 judges the probe result)",
     ]
     known = [c["case"] for c in vlib.known_replay_cases(ctx.pid) if isinstance(c, dict) and c.get("kind") == "node"]
     if ctx.replay:
@@ -78,18 +77,15 @@ def run(ctx):
     # measured: hard/108: 2.2e4 distinct, 5.6e5 generated; gradual/104 (down-after 4, level 3): 3.8e4 / 9.3e5;
     # gradual/105 (level 4): 3.8e5 / 9.3e6; hard/112: 1.6e5 / 6.8e6
     # quick: hard W=2 cool=3 down-after 4 /106: 1.2e4 / 2.9e5; gradual W=1 Min=1 down-after 4 /104 (level 3): 1.3e4 / 3.2e5
-    hmcs = [H.hc_params("hard", "C27", maxtime=106, downafter=4, cool=3),
-            H.hc_params("gradual", "C27", w=1, min=1, maxtime=104, downafter=4, maxlevel=3)]
+    hmcs = [H.hc_params("hard", maxtime=106, downafter=4, cool=3),
+            H.hc_params("gradual", w=1, min=1, maxtime=104, downafter=4, maxlevel=3)]
     if thorough:
-        hmcs = [H.hc_params("hard", "C27", maxtime=110), H.hc_params("gradual", "C27", maxtime=104, downafter=4),
-                H.hc_params("hard", "C27", maxtime=110, downafter=4, sbm=0),
-                H.hc_params("gradual", "C27", maxtime=104, downafter=4, maxlevel=3, hasmaster="FALSE")]
+        hmcs = [H.hc_params("hard", maxtime=110), H.hc_params("gradual", maxtime=104, downafter=4),
+                H.hc_params("hard", maxtime=110, downafter=4, sbm=0),
+                H.hc_params("gradual", maxtime=104, downafter=4, maxlevel=3, hasmaster="FALSE")]
     for p in hmcs:
         jobs.append(dict(module="HealthCheck", cfg_text=H.HC_MC % p, coverage=True, workers=4,
                          label="mc rounds+breaker policy=%(policy)s downafter=%(downafter)d hasmaster=%(hasmaster)s" % p))
-    # the corner in which the code leaves C27: TLC exhibits it as a counterexample when the exception is removed
-    pc = H.hc_params("hard", "C27", maxtime=106, downafter=4, cool=3, extra="CONSTANT KnownCorner <- NoCorner")
-    jobs.append(dict(module="HealthCheck", cfg_text=H.HC_MC % pc, allow_violation=True, label="mc rounds+breaker without the known-corner exception"))
     n_mc = len(jobs)
 
     # 2. generation: Fuse events only (long, so that penalties are served and grow) ...
@@ -113,23 +109,18 @@ def run(ctx):
         jobs.append(dict(module="Fuse_gen", cfg_text=H.NODE_GEN % p, workers=1, emit=True,
                          label="gen all fuse/probe behaviours policy=%s len=%d" % (pol, ln)))
     # ... and the same rules inside complete health-check rounds (master state, replication state, down-after)
-    hplans = [dict(p=H.hc_params("hard", "C27", fuseweight=3, len=30), num=150), dict(p=H.hc_params("gradual", "C27", fuseweight=3, len=40), num=150),
-              dict(p=H.hc_params("hard", "C27", fuseweight=3, len=30, hasmaster="FALSE", cool=9), num=60)]
+    hplans = [dict(p=H.hc_params("hard", fuseweight=3, len=30), num=150), dict(p=H.hc_params("gradual", fuseweight=3, len=40), num=150),
+              dict(p=H.hc_params("hard", fuseweight=3, len=30, hasmaster="FALSE", cool=9), num=60)]
     if thorough:
-        hplans = [dict(p=H.hc_params("hard", "C27", fuseweight=3, len=40), num=2500), dict(p=H.hc_params("gradual", "C27", fuseweight=3, len=60), num=2500),
-                  dict(p=H.hc_params("hard", "C27", fuseweight=4, len=40, hasmaster="FALSE", cool=9), num=600),
-                  dict(p=H.hc_params("hard", "C27", fuseweight=3, len=40, w=4, min=3, cool=2, downafter=12, sbm=0, healthsql="FALSE"), num=1200),
-                  dict(p=H.hc_params("gradual", "C27", fuseweight=3, len=60, w=3, min=2, downafter=4, healthsql="FALSE"), num=1200)]
+        hplans = [dict(p=H.hc_params("hard", fuseweight=3, len=40), num=2500), dict(p=H.hc_params("gradual", fuseweight=3, len=60), num=2500),
+                  dict(p=H.hc_params("hard", fuseweight=4, len=40, hasmaster="FALSE", cool=9), num=600),
+                  dict(p=H.hc_params("hard", fuseweight=3, len=40, w=4, min=3, cool=2, downafter=12, sbm=0, healthsql="FALSE"), num=1200),
+                  dict(p=H.hc_params("gradual", fuseweight=3, len=60, w=3, min=2, downafter=4, healthsql="FALSE"), num=1200)]
     for pl in hplans:
         p = dict(pl["p"], maxtime=10 ** 6)
         jobs.append(dict(module="HealthCheck_gen", cfg_text=H.HC_GEN % p, sim=pl["num"], depth=p["len"] + 1, seed=seed(),
                          label="gen round behaviours policy=%(policy)s hasmaster=%(hasmaster)s cool=%(cool)d" % p))
     res = H.run_jobs(ctx, jobs, parallel=4 if thorough else 6)
-    corner = res[n_mc - 1]
-    ctx.cov["tlc_counterexample_without_corner_exception"] = corner.violated
-    if not corner.violated:
-        ctx.notes.append("TLC found no counterexample when the known-corner exception was removed (corner not reachable within the bounds?)")
-
     cases = []
     for r in res[n_mc:]:
         cases += r.cases
